@@ -16,6 +16,7 @@ Definition run (kind : Z) (inp : list Z) : list Z :=
   | 301 => run_cached_read inp
   | 302 => run_cache inp
   | 303 => run_admission inp
+  | 304 => run_cache_split inp
   | 401 => run_life true inp
   | 501 => run_restart true inp
   | 502 => run_osync inp
@@ -71,6 +72,7 @@ Definition mon (kind : Z) (inp obs : list Z) : bool :=
   | 301 => mon_cached_read inp obs
   | 302 => mon_cache inp obs
   | 303 => mon_admission inp obs
+  | 304 => list_eqb_Z (run_cache_split inp) obs
   | 401 => mon_life inp obs
   | 501 => mon_restart inp obs
   | 502 => list_eqb_Z (run_osync inp) obs
